@@ -382,6 +382,51 @@ def _prune_unreachable(fj):
             b["succ"] = [s_ if (s_ is None or s_ in seen) else None for s_ in b["succ"]]
 
 
+def desugar_struct_assign(functions, types, records):
+    """`X = (struct T){.a = e1, .b = e2}` as a block element becomes `X.a = e1; X.b = e2` (p->a for X = *p): the rules that
+    look for the store to a field see it whichever way the record is filled.  Only when every initialiser is free of side
+    effects and does not read X's own fields other than through a different object (the values are computed before the
+    stores in C; here they are read one by one)."""
+    for fj in functions:
+        if not fj.get("blocks"):
+            continue
+        nid = None
+        for b in fj["blocks"]:
+            new = []
+            changed = False
+            for el in b["elems"]:
+                ok = el.get("k") == "bin" and el.get("op") == "=" and isinstance(el["a"][1], dict) and el["a"][1].get("k") == "complit"
+                ini = el["a"][1]["a"][0] if ok and el["a"][1].get("a") else None
+                if not (ok and isinstance(ini, dict) and ini.get("k") == "init" and ini.get("fields") and len(ini["fields"]) == len(ini.get("a", []))):
+                    new.append(el)
+                    continue
+                lhs = el["a"][0]
+                t = types[el["t"]] if isinstance(el.get("t"), int) and el["t"] >= 0 else {}
+                rec = records.get(t.get("rec")) if t.get("rec") else None
+                pure = all(n.get("k") in ("var", "member", "int", "cast", "ref", "un", "bin", "decay", "index", "fn", "str", "float") and not (n.get("k") == "bin" and n.get("op", "").endswith("=") and n.get("op") not in ("==", "!=", "<=", ">=")) and not (n.get("k") == "un" and n.get("op") in ("pre++", "pre--", "post++", "post--")) for v_ in ini["a"] for n in _walk(v_))
+                if rec is None or rec.get("union") or not pure or lhs.get("k") == "ref":
+                    new.append(el)
+                    continue
+                if nid is None:
+                    nid = _max_id(fj) + 1
+                ft = {f_["n"]: f_["t"] for f_ in rec["fields"]}
+                arrow = lhs.get("k") == "un" and lhs.get("op") == "deref"
+                for fname, val in zip(ini["fields"], ini["a"]):
+                    base = copy.deepcopy(lhs["a"][0] if arrow else lhs)
+                    for n in _walk(base):
+                        if isinstance(n.get("id"), int):
+                            n["id"] = nid
+                            nid += 1
+                    m = {"k": "member", "id": nid, "t": ft.get(fname, -1), "loc": el.get("loc"), "f": fname, "arrow": bool(arrow), "rec": t["rec"], "a": [base]}
+                    nid += 1
+                    new.append({"k": "bin", "id": nid, "t": ft.get(fname, -1), "loc": el.get("loc"), "op": "=", "a": [m, val]})
+                    nid += 1
+                changed = True
+            if changed:
+                b["elems"] = new
+    return functions
+
+
 def flatten_unit(functions, types, globals_=None):
     """list of function JSON dicts -> (new list, set of transparent helper names)"""
     helpers = transparent_helpers(functions, globals_, types)
